@@ -500,6 +500,9 @@ def run_impl(cfg):
         ind = Ind(g)
         if pre:
             ind.fitness.values = to_values(ev_pure(p, [int(x) for x in REC.geno(ind)]), cfg.get("evtype", "float"))
+            if not ind.fitness.valid:
+                raise ValueError("a fitness is not valid right after the values returned by the evaluation function were assigned "
+                                 "(%r)" % (to_values(ev_pure(p, [int(x) for x in REC.geno(ind)]), cfg.get("evtype", "float")),))
         return ind
 
     # ---- initial population ----
@@ -1229,7 +1232,17 @@ def main(run):
         # model (draws of deap.algorithms' random, operator script) and replayed by Corr/C03_Full.v
         if corr and cfg["kind"] in ("simple", "plus", "comma") and not cfg.get("legs") and not cfg.get("tree"):
             cfg["full"] = True
-        results = run_impl(cfg)
+        try:
+            results = run_impl(cfg)
+        except (DrawCap, KeyboardInterrupt):
+            raise
+        except Exception as e:  # noqa
+            # nothing in the harness' own set-up can raise on the unchanged tree: assigning what the evaluation function
+            # returned (tuple / list / numpy scalars / numpy array) to fitness.values, or running the loop, failed
+            import traceback
+            run.oracle_violation("evaluating / assigning the fitness of the initial population or running the loop raised %s: %s"
+                                 % (type(e).__name__, str(e)[:200]), cfg_public(cfg), observed=traceback.format_exc()[-1200:])
+            return
         carry = None
         for li, (leg, obs) in enumerate(results):
             pub = cfg_public(leg)
